@@ -321,7 +321,7 @@ def oracle_connection(ctx, spec, obs, calls, meta, expect_frames=None):
     def hit(sig, what, extra=None):
         w = {'stream_hex': spec['stream'].hex() if len(spec['stream']) <= 4096 else spec['stream'][:4096].hex() + '...',
              'stream_len': len(spec['stream']), 'chunk_sizes': spec['sizes'][:64], 'cert': spec['cert'], 'tls': spec['tls'],
-             'plugins': spec['plugins'], 'what': what}
+             'plugins': spec['plugins'], 'what': what, 'meta': meta}
         w.update(extra or {})
         hits.append(ctx.violation(sig, w, what))
 
@@ -336,6 +336,8 @@ def oracle_connection(ctx, spec, obs, calls, meta, expect_frames=None):
     for i, f in enumerate(obs['frames']):
         m = meta[i] if meta and i < len(meta) else {}
         fx = {'frame_index': i, 'frame_hex': (f['frame'] or b'')[:2048].hex(), 'frame_kind': m.get('kind')}
+        if m.get('no_oracle'):
+            continue
         if f['escaped'] is not None:
             hit({'kind': 'escaped', 'exc': f['escaped']}, 'exception %s left _handle_message_loop' % f['escaped'], fx)
             continue
@@ -410,7 +412,9 @@ def run(ctx):
         'byte flips, duplicated/dropped items, deep nesting, raw random) in sequences bad*-then-good, each also replayed one '
         'frame per connection on a twin engine; (c) every composition of every stream of <= 12 bytes (quick: 8..12 bytes, 1-2 '
         'streams per length) and random chunkings (1..9000-byte chunks) of long streams incl. frames > 4096 bytes; '
-        '(d) maximum response size in {absent, 0, 1, size-1, size, size+1, 2^31-1, -1} for five operations. '
+        '(d) maximum response size in {absent, 0, 1, size-1, size, size+1, 2^31-1, -1} for five operations; (e) requests '
+        'the engine refuses as a whole (stale/future time stamp, asynchronous, undo, version 9.9) and injected engine '
+        'behaviours (crash, KmipError with ASCII/non-ASCII/unencodable text, reported maximum, unencodable response). '
         'Distinct = distinct (frame bytes, chunking); every case involves a real parse or a real framing decision.')
     ctx.regen(only=['enums'])
     ctx.prove('props/C12.v')
@@ -449,9 +453,10 @@ def run(ctx):
             for kind, fr in mutations(b, rng, per_kind):
                 bad.append((kind + ':' + lab, fr))
         bad += special_frames(rng, valid)
-        if quick and len(bad) > 1500:
+        cap = 1500 if quick else 8000
+        if len(bad) > cap:
             keep = special_frames(rng, valid)
-            bad = rng.sample(bad, 1500 - len(keep)) + keep
+            bad = rng.sample(bad, cap - len(keep)) + keep
         rng.shuffle(bad)
         probes = [x for x in valid if x[0] in ('get', 'create', 'locate', 'query', 'get_attributes', 'encrypt', 'batch2', 'get_attributes_unset')]
         pa, pb = pool.fresh(), pool.fresh()
@@ -545,6 +550,34 @@ def run(ctx):
                 R.connection(px, sessdrv.default_spec(stream, random_chunking(len(stream), rng)),
                              [{'kind': 'max:%s:%r' % (lab, m), 'max': m} for m in ms], kind='max-size')
         pool.release(px)
+        # ---------------------------------------------------------------- (e) request-level refusals and engine faults
+        px = pool.fresh()
+        B = kdrv.Engine.build
+        q = lambda **kw: sessdrv.encode_request(B(None, [kdrv.query()], version=(1, 2), **kw), (1, 2))
+        empty = bytearray(sessdrv.encode_request(B(None, [], version=(1, 2)), (1, 2)))        # batch count 0
+        for off, tag, typ, ln, d in walk(bytes(empty)):
+            if tag == 0x42006A:
+                empty[off + 8:off + 12] = struct.pack('>i', 9)
+                empty[off + 24:off + 28] = struct.pack('>i', 9)
+        refused = [('stale-time-stamp', q(time_stamp=1000)), ('future-time-stamp', q(time_stamp=2 ** 31 - 1)),
+                   ('asynchronous', q(asynchronous=True)), ('undo', q(batch_option=E.BatchErrorContinuationOption.UNDO)),
+                   ('version-9.9-no-items', bytes(empty)), ('no-items', sessdrv.encode_request(B(None, [], version=(1, 2)), (1, 2)))]
+        stream = b''.join(x[1] for x in refused) + g0
+        R.connection(px, sessdrv.default_spec(stream, random_chunking(len(stream), rng)),
+                     [{'kind': 'refused:' + x[0]} for x in refused] + [{'kind': 'good:get'}], kind='request-refused')
+        IF = E.ResultReason.INVALID_FIELD
+        faults = [(('crash',), {}), (('kmiperr', IF, 'plain ASCII message'), {}), (('kmiperr', IF, 'caf\u00e9 \u20ac \U0001F511'), {}),
+                  (('kmiperr', E.ResultReason.GENERAL_FAILURE, ''), {}), (('max', 5), {'max': 5}), (('max', 0), {'max': 0}),
+                  (('max', -7), {'max': -7}), (('max', 10 ** 6), {'max': 10 ** 6}), (('unencodable',), {}),
+                  # a message no real engine path produces (client text is decoded strictly): model tie only
+                  (('kmiperr', IF, 'lone surrogate \udc80'), {'no_oracle': True})]
+        for probe in (q(), g0, by_label['get_attributes_unset2'][0][1] if 'get_attributes_unset2' in by_label else g0):
+            px.faults = [f for f, _ in faults]
+            stream = probe * len(faults) + g0
+            R.connection(px, sessdrv.default_spec(stream, random_chunking(len(stream), rng)),
+                         [dict(m, kind='fault:' + f[0]) for f, m in faults] + [{'kind': 'good:get'}], kind='engine-faults')
+            px.faults = []
+        pool.release(px)
     finally:
         pool.close()
 
@@ -574,7 +607,7 @@ def replay(ctx, payload):
                                     cert=(tuple(w['cert'][0]), w['cert'][1]) if w.get('cert') else None,
                                     tls=w.get('tls', True), plugins=w.get('plugins', []))
         obs, _ = sessdrv.run_spec(px, spec)
-        oracle_connection(ctx, spec, obs, px.calls, None)
+        oracle_connection(ctx, spec, obs, px.calls, w.get('meta'))
         for i, f in enumerate(obs['frames']):
             print('frame', i, 'sent', [x.hex()[:80] for x in f['sent']], 'escaped', f['escaped'], 'engine', bool(f['engine']))
     finally:
